@@ -213,6 +213,9 @@ def impl_obs(ddef, sy, K, n):
     o["len"] = outcome(lambda: len(d6))[:2]
     with time_limit(20):
         o["iter"] = outcome(lambda: [sy.word(w) for w in itertools.islice(iter(d7), n)])[:2]
+        # a second pass over the same object, and the words of the middle length asked afterwards
+        o["iter_again"] = outcome(lambda: [sy.word(w) for w in itertools.islice(iter(d7), n)])[:2]
+        o["words_after_iter"] = outcome(lambda: [sy.word(w) for w in d7.words_of_length(K // 2)])
     o["empty"] = outcome(lambda: d8.isempty())[:2]
     o["finite"] = outcome(lambda: d9.isfinite())[:2]
     return o
@@ -256,6 +259,10 @@ def check_dfa(ctx, ddef, tag, K=None, n=None):
             problems.append((key, f"{call} = {imp[key]}, model {m[key]}"))
     if imp["len"] != m["card"]:
         problems.append(("len", f"len() = {imp['len']}, model {m['card']}"))
+    if imp["iter_again"] != imp["iter"]:
+        problems.append(("iter_again", f"a second iteration of the same object gives {imp['iter_again']!r:.200}, the first gave {imp['iter']!r:.200}"))
+    if imp["words_after_iter"][:2] != imp["words"][K // 2][:2]:
+        problems.append(("words_after_iter", f"words_of_length({K // 2}) after an iteration = {imp['words_after_iter']!r:.200}, on a fresh object {imp['words'][K // 2]!r:.200}"))
     if imp["iter"] != m["iter"]:
         problems.append(("iter", f"first {n} words of iteration = {imp['iter']!r:.300}, model {m['iter']!r:.300}"))
 
